@@ -288,6 +288,38 @@ func ruleConcurrency(c *Ctx) {
 				addr = x.Addr
 			case *ssa.MapUpdate:
 				addr = x.Map
+			case ssa.CallInstruction:
+				// a slice or map held in a package variable handed to code that may write through it:
+				// the destination of copy, or any function outside the repository that is not known to
+				// only read its argument (slices.Reverse, sort.Slice, rand.Shuffle, ...)
+				cc := x.Common()
+				if bi, isB := cc.Value.(*ssa.Builtin); isB {
+					if bi.Name() == "copy" && len(cc.Args) == 2 {
+						if g := globalValueRoot(cc.Args[0]); g != nil {
+							k++
+							gw++
+							c.Check(R2, fmt.Sprintf("%s/globalwrite#%d", name, k), ins.Pos(), false, "no write to package-level state outside init", "copy into "+g.Name())
+						}
+					}
+					return
+				}
+				cal := cc.StaticCallee()
+				if cal == nil || isRepoFunc(cal) || readOnlyExternal[calleeFullName(cal)] {
+					return
+				}
+				for _, a := range cc.Args {
+					switch a.Type().Underlying().(type) {
+					case *types.Slice, *types.Map:
+					default:
+						continue
+					}
+					if g := globalValueRoot(a); g != nil {
+						k++
+						gw++
+						c.Check(R2, fmt.Sprintf("%s/globalwrite#%d", name, k), ins.Pos(), false, "no write to package-level state outside init", g.Name()+" handed to "+calleeFullName(cal)+", which may modify it in place")
+					}
+				}
+				return
 			default:
 				return
 			}
@@ -557,7 +589,7 @@ func ruleConcurrency(c *Ctx) {
 	// ---- U3 map ranges
 	const R5 = "U3-MAPRANGE"
 	c.Doc(R5, "every range over a map in non-test code is order-independent: recognised idiom = return the key of the first entry whose <field> equals a loop-invariant target, which is order-independent iff <field> is injective on the table (checked on the evaluated literal)")
-	c.Floor(R5, 2)
+	c.Floor(R5, 0) // removing a map range is fine; the canary below shows the rule still sees them
 	for _, fn := range withCanary {
 		name := c.P.FuncName(fn)
 		k := 0
@@ -597,6 +629,71 @@ func ruleConcurrency(c *Ctx) {
 		sort.Strings(bad)
 		c.Check(R7, k+"/imports", token.NoPos, len(bad) == 0, "no denied import", fmt.Sprint(bad))
 	}
+}
+
+func init() {
+	canaries = append(canaries, canary{Pkg: "twooffive", Rule: "U3-MAPRANGE", Src: `
+func zzVerifCanaryMapOrder(m map[int]int) int {
+	for k := range m {
+		return k
+	}
+	return 0
+}`})
+	canaryExpect["U3-MAPRANGE"] = []string{"zzVerifCanaryMapOrder"}
+}
+
+// readOnlyExternal: functions outside the repository that only read a slice/map argument.
+var readOnlyExternal = map[string]bool{
+	"fmt.Sprint": true, "fmt.Sprintf": true, "fmt.Sprintln": true, "fmt.Errorf": true, "fmt.Fprintf": true, "fmt.Fprint": true, "fmt.Fprintln": true,
+	"bytes.Equal": true, "bytes.IndexByte": true, "bytes.Contains": true, "bytes.Index": true,
+	"sort.SearchInts": true, "sort.Search": true,
+	"slices.Contains": true, "slices.Index": true, "slices.IndexFunc": true, "slices.ContainsFunc": true, "slices.BinarySearch": true, "slices.Equal": true, "slices.Max": true, "slices.Min": true, "slices.Backward": true, "slices.All": true, "slices.Values": true, "slices.Clone": true,
+	"maps.Keys": true, "maps.Values": true, "maps.All": true, "maps.Clone": true,
+	"strings.Join": true, "strings.NewReplacer": true, "unicode/utf8.DecodeRune": true, "unicode/utf8.RuneCount": true, "unicode/utf8.Valid": true,
+}
+
+func calleeFullName(f *ssa.Function) string {
+	name := f.Name()
+	if o := f.Origin(); o != nil {
+		f = o // generic instantiation -> the generic function
+		name = f.Name()
+	}
+	if f.Pkg != nil {
+		return f.Pkg.Pkg.Path() + "." + name
+	}
+	if f.Object() != nil && f.Object().Pkg() != nil {
+		return f.Object().Pkg().Path() + "." + name
+	}
+	return name
+}
+
+// globalValueRoot: v is (a sub-slice of) a slice/map/array value loaded from a package variable or from
+// an element of one.
+func globalValueRoot(v ssa.Value) *ssa.Global {
+	for d := 0; d < 6; d++ {
+		switch x := v.(type) {
+		case *ssa.Slice:
+			v = x.X
+			continue
+		case *ssa.UnOp:
+			if x.Op == token.MUL {
+				if g, ok := x.X.(*ssa.Global); ok {
+					return g
+				}
+				return globalRoot(x.X, 0)
+			}
+		case *ssa.Lookup:
+			return globalRoot(x, 0)
+		case *ssa.Extract:
+			if lk, ok := x.Tuple.(*ssa.Lookup); ok {
+				return globalRoot(lk, 0)
+			}
+		case *ssa.Global: // pointer to a package-level array
+			return x
+		}
+		return nil
+	}
+	return nil
 }
 
 func globalRoot(addr ssa.Value, depth int) *ssa.Global {
